@@ -313,8 +313,11 @@ impl<W: WriteColor> SearchWorker<W> {
             )
         })?;
         let result = self.search_reader(path, &mut rdr).map_err(|err| {
+            // Keep the kind of the error: callers treat a broken pipe (the
+            // consumer of our output went away) as a request to stop, not
+            // as a failure of this file.
             io::Error::new(
-                io::ErrorKind::Other,
+                err.kind(),
                 format!("preprocessor command failed: '{:?}': {}", cmd, err),
             )
         });
